@@ -446,6 +446,7 @@ class DHEat:
                     socket_dict[s] = now
                 else:
                     out.d("connect_ex() returned: %s (%d)" % (os.strerror(ret), ret), write_now=True)
+                    s.close()  # This socket is not tracked in socket_dict, so nothing else would close it.
 
             # out.d("Calling select() on %u sockets..." % len(socket_dict), write_now=True)
             socket_list: List[socket.socket] = [*socket_dict]  # Get a list of sockets from the dictionary.
